@@ -135,6 +135,15 @@ pub fn scan_fn(f: &str, a: &[&str]) -> Option<String> {
                     w[hoff + s.omega] = a as u8; w[hoff + s.omega + 1] = b as u8;      // decreasing pair after a well-formed first polynomial
                     for j in 2..s.k { w[hoff + s.omega + j] = a as u8; }
                 }
+                if it % 16 == 3 || it % 16 == 11 {
+                    // a two-entry row whose index bytes sit at the ends of the byte range: (255, x), (x, 255), (0, 0)
+                    let pairs = [(255u8, 0u8), (255, 7), (255, 254), (255, 255), (254, 255), (0, 0), (0, 255), (128, 127)];
+                    let (p0, p1) = pairs[r.below(pairs.len())];
+                    let row = r.below(s.k);
+                    for j in 0..s.omega { w[hoff + j] = 0; }
+                    w[hoff] = p0; w[hoff + 1] = p1;
+                    for j in 0..s.k { w[hoff + s.omega + j] = if j < row { 0 } else { 2 }; }
+                }
                 let pkv: Vec<u8> = if it % 5 == 4 { (0..s.pk).map(|i| if i < 32 { r.byte() } else { 255 }).collect() } else { pk.clone() };
                 t.add(try_verify(s.verify, &w, &msg, &pkv), || format!("case{}:{}", it % 8, hex(&w)));
             }
@@ -160,6 +169,28 @@ pub fn scan_fn(f: &str, a: &[&str]) -> Option<String> {
         }
         // C01: many deterministic signatures under one generated key: each must be produced (the call returns) and verify;
         // answer: ok n=<count> bad=<first failing message index or -> ; a signing call that never returns shows as a timeout of the process
+        // C03: search (deterministic signing of messages 0, 1, 2, ...) for an honest signature in which some hint row with at
+        // least two entries ends at position 255 (about one ML-DSA-87 signature in four; rarer for the smaller sets)
+        // answer: ok <msg hex> <sig hex> <row> | ok none
+        ("findsig255", 3) => {
+            let s = set_fns(a[0])?; let sk = unhex(a[1])?; let n: usize = a[2].parse().ok()?;
+            let hoff = s.sig - s.omega - s.k;
+            for i in 0..n {
+                let msg = (i as u32).to_le_bytes().to_vec();
+                let mut sig = vec![0u8; s.sig];
+                (s.sign)(&mut sig, &msg, &sk, false);
+                let mut start = 0usize;
+                for row in 0..s.k {
+                    let end = sig[hoff + s.omega + row] as usize;
+                    if end >= start + 2 && end <= s.omega && sig[hoff + end - 1] == 255 {
+                        return Some(format!("ok {} {} {}", hex(&msg), hex(&sig), row));
+                    }
+                    start = end;
+                }
+            }
+            Some("ok none".to_string())
+        }
+        ("judgemany", 4) => crate::judge::judgemany(a),
         ("signmany", 3) => {
             let s = set_fns(a[0])?; let seed = unhex(a[1])?; let count: usize = a[2].parse().ok()?;
             let mut pk = vec![0xA5u8; s.pk]; let mut sk = vec![0xA5u8; s.sk];
